@@ -8,6 +8,7 @@ import XmppModel.Model.IbbClose
 
     C15 recv <maxbuf> <ops>    ops `,`-joined:  d:<known>:<seq>:<payloadhex>  data packet
                                                 c   the stream is closed (by either side)
+                                                h   local Close has sent its <close/> and waits for the answer
                                                 r:<n>   Read with a buffer of n bytes
        answer: one observation per op, `,`-joined: ack|inf|unx|bad|res  /  c  /  D<hex>|EOF|BLOCK
     C15 emit <closed> <writtenhex> <packets>    packets `,`-joined: <seq>:<known>:<payloadhex>
@@ -16,17 +17,16 @@ import XmppModel.Model.IbbClose
 namespace XmppModel.Driver.C15
 open XmppModel XmppModel.Ibb
 
-def showReply : Reply → String
-  | .ack => "ack" | .itemNotFound => "inf" | .unexpectedRequest => "unx"
-  | .badRequest => "bad" | .resourceConstraint => "res"
-
 def applyOp (s : RState) (op : String) : Option (RState × String) :=
   match op.splitOn ":" with
   | ["d", k, seq, pl] => do
-    let k ← parseBool k; let n ← seq.toNat?; let b ← hexDecode pl
-    let r := recv std s ⟨k, n, b⟩
+    -- the seq field is the attribute text: plain when it is a canonical numeral, else x<hex>
+    let k ← parseBool k; let b ← hexDecode pl
+    let a ← if seq.startsWith "x" then hexDecode (seq.drop 1).toString else some seq.toUTF8.toList
+    let r := recvWire std s ⟨k, a, b⟩
     pure (r.1, showReply r.2)
   | ["c"] => some (close s, "c")
+  | ["h"] => some (closeBegin (IbbClose.receivesWhileWaiting IbbClose.closeProgram) s, "h")
   | ["b", n, bs] => do
     -- SetReadBuffer(n) on a connection with block size bs
     let n ← n.toNat?; let bs ← bs.toNat?
